@@ -26,7 +26,7 @@ ASSUMPTIONS = ["following the server's smaller block size in later Block1 reques
                "a non-block answer in the middle of a Block2 transfer may be accepted as the complete representation"]
 EXPECTED_PROBES = ["block1_multi", "block2_multi", "szx_reduced_block1", "szx_reduced_block2", "misbehave_b1_wrong_num",
                    "misbehave_b1_more_on_final", "misbehave_b2_short", "misbehave_b2_skip", "misbehave_b2_etag_change",
-                   "misbehave_b2_etag_presence_change", "retransmitted_block", "unfragmented_1124"]
+                   "misbehave_b2_etag_presence_change", "block1_acked_without_more_bit", "retransmitted_block", "unfragmented_1124"]
 
 LENGTHS = [0, 1, 15, 16, 17, 31, 32, 33, 63, 64, 65, 127, 128, 129, 511, 512, 513, 1023, 1024, 1025, 1124, 1125,
            2047, 2048, 2049, 3000, 5000]
@@ -72,6 +72,8 @@ def gen_transfer(r, i):
     if r.chance(0.3):
         tr["misbehave"] = r.choice(MISBEHAVE)
         tr["at"] = r.randrange(0, 4)
+    if r.chance(0.15):
+        tr["s1_stateless"] = True
     return tr
 
 
@@ -214,6 +216,11 @@ class RefServer7959(ScriptedEndpoint):
                     rnum = num + 1
                     st["misbehaved"] = True
                     self.sim.probe("misbehave_b1_wrong_num")
+                if spec.get("s1_stateless") and msg["code"] in (rc.PUT, rc.POST) and rnum == num:
+                    # RFC 7959 section 2.3: a server that processes every block on its own acknowledges a non-final
+                    # block with the M bit unset and an ordinary success code; the client has to go on all the same
+                    self.sim.probe("block1_acked_without_more_bit")
+                    return {"code": rc.CHANGED, "options": [(rc.BLOCK1, rc.block_bytes(rnum, False, eszx))], "payload": b""}
                 return {"code": rc.CONTINUE, "options": [(rc.BLOCK1, rc.block_bytes(rnum, True, eszx))], "payload": b""}
             # final block: the body is complete
             body = st["buf"]
